@@ -265,6 +265,7 @@ type verifSeqSuite struct {
 	chain      []*state.Task
 	chainIdx   map[string]int
 	evErr      error
+	abandon    bool
 	nEvents    int
 	nChanges   int
 	nFaults    int
@@ -560,6 +561,16 @@ func (s *verifSeqSuite) request(op *verifSeqOp) (*state.TaskSet, error) {
 	panic("unknown op kind " + op.Kind)
 }
 
+func (s *verifSeqSuite) requestNoPanic(op *verifSeqOp) (ts *state.TaskSet, err error, panicked string) {
+	defer func() {
+		if r := recover(); r != nil {
+			panicked = fmt.Sprint(r)
+		}
+	}()
+	ts, err = s.request(op)
+	return ts, err, ""
+}
+
 // runOp executes one operation (state lock held by caller) and logs its events.
 func (s *verifSeqSuite) runOp(c *check.C, op *verifSeqOp) {
 	st := s.state
@@ -655,7 +666,13 @@ func (s *verifSeqSuite) runOp(c *check.C, op *verifSeqOp) {
 	s.vb.arm(0)
 	opsBefore := len(s.fakeBackend.ops)
 	nChangesBefore := len(st.Changes())
-	ts, err := s.request(op)
+	ts, err, panicked := s.requestNoPanic(op)
+	if panicked != "" {
+		// the real entry point panicked (e.g. on an inconsistent record): report it, give up on this history
+		s.emit(map[string]interface{}{"ev": "Panic", "op": op, "what": panicked})
+		s.abandon = true
+		return
+	}
 	if err != nil {
 		if len(st.Changes()) != nChangesBefore {
 			s.emit(map[string]interface{}{"ev": "Unexpected", "what": "failed request created a change"})
@@ -776,6 +793,7 @@ func (s *verifSeqSuite) reset(c *check.C, onClassic bool) {
 	s.state.Unlock()
 	s.bootRev = []int{}
 	s.curChg = nil
+	s.abandon = false
 	// the model's kernel: make the (fake) on-disk metadata say so consistently
 	s.AddCleanup(snapstate.MockSnapReadInfo(func(name string, si *snap.SideInfo) (*snap.Info, error) {
 		info, err := s.fakeBackend.ReadInfo(name, si)
@@ -892,7 +910,7 @@ func (s *verifSeqSuite) runHistory(c *check.C, id string, onClassic bool, ops []
 		cp := *op
 		s.runOp(c, &cp)
 		*op = cp
-		if s.evErr != nil {
+		if s.evErr != nil || s.abandon {
 			return
 		}
 	}
@@ -946,7 +964,7 @@ func (s *verifSeqSuite) TestVerifSeqHistories(c *check.C) {
 		s.caseID = fmt.Sprintf("r%d", h)
 		s.state.Lock()
 		s.emit(map[string]interface{}{"ev": "Reset"})
-		for i := 0; i < n && s.evErr == nil; i++ {
+		for i := 0; i < n && s.evErr == nil && !s.abandon; i++ {
 			name := s.snaps[0]
 			if s.rnd.Intn(4) == 0 {
 				name = s.snaps[1]
@@ -976,7 +994,7 @@ func (s *verifSeqSuite) TestVerifSeqHistories(c *check.C) {
 		s.state.Lock()
 		s.emit(map[string]interface{}{"ev": "Reset"})
 		nTasks := 0
-		for i := 0; i < n && s.evErr == nil; i++ {
+		for i := 0; i < n && s.evErr == nil && !s.abandon; i++ {
 			op := s.randomOp(s.snaps[0])
 			if i == n-1 {
 				// make the last one a change
